@@ -217,6 +217,11 @@ def check(repo: Repo, run: Run) -> None:
         "names (loops over run-time name sets) - see DESIGN.md."
     )
     ev = repo.mod("evaluation")
+    # N7: "inside the macro body only" - the interpreter binds the iteration variable with load_values() on a *clone*
+    # of the enclosing activation, the compiled runner on a clone of the program's activation: a Referent the clone
+    # shares with its original receives the binding in both, so the variable stays visible after the macro and a
+    # binding of an earlier evaluate() takes part in the longest-prefix search (instances shared with C05.H3)
+    run.borrow(repo, "C05", "C12.N7", lambda o: o["rule"] == "C05.H3", 3)
     # N1 -----------------------------------------------------------------
     cls = ev.cls("Referent")
     getter = None
